@@ -86,8 +86,9 @@ Simulate(p, via) ==
   /\ Log([op |-> "Simulate", p |-> p, d |-> None, how |-> "simulate()", via |-> via])
 
 \* register_buffer(name, tensor of dtype src): stored in the declared dtype, or as it is without one
+\* (src = "i64": an integer tensor registered on an instrument that declares a dtype is stored in the declared dtype as well)
 RegisterBuffer(p, b, src) ==
-  /\ Room /\ b \in BufNames[p] /\ src \in Floats
+  /\ Room /\ b \in BufNames[p] /\ (src \in Floats \/ (src = "i64" /\ declared[p] # None))
   /\ bufs' = [bufs EXCEPT ![p][b] = IF declared[p] = None THEN src ELSE declared[p]]
   /\ UNCHANGED <<default, declared>>
   /\ Log([op |-> "RegisterBuffer", p |-> p, d |-> src, how |-> b, via |-> "primary"])
@@ -103,7 +104,7 @@ Next == \/ \E p \in Prims, d \in Floats, h \in Hows, v \in Vias : To(p, d, h, v)
         \/ \E p, q \in Prims : ToInstrument(p, q)
         \/ \E p \in Prims, h \in Hows \ {"method"}, v \in Vias : ToNonFloat(p, h, v)
         \/ \E p \in Prims, v \in Vias : Simulate(p, v)
-        \/ \E p \in Prims : \E b \in BufNames[p] : \E s \in Floats : RegisterBuffer(p, b, s)
+        \/ \E p \in Prims : \E b \in BufNames[p] : \E s \in Floats \cup {"i64"} : RegisterBuffer(p, b, s)
         \/ \E d \in Defaults : SetDefault(d)
 Spec == Init /\ [][Next]_vars
 
